@@ -223,3 +223,205 @@ Proof. exact @tiea_softmax. Qed.
 Theorem C17_model_is_source_softmax_binary64 :
   forall (t : libm_table) (x : list PrimFloat.float), src_softmax (FO t) x = softmax (FO t) x.
 Proof. intros t x. exact (tiea_softmax (FO t) (ninf_neutral_FO t) x). Qed.
+
+(** ** The transforms ON BINARY64, conditional on explicit hypotheses about the recorded libm table.
+    [FO t] answers exp / ln from the table [t] recorded from the live glibc; Coq cannot know what glibc returns, so each
+    theorem names exactly the libm facts it uses, restricted to the arguments that actually occur (definitions in
+    Proofs/C17_float.v, repeated here in words):
+      [exp_tbl_unit_range t args]  : exp a is a finite double in [0,1] for every a in args with a <= 0 (-inf included);
+      [exp_tbl_one_at_zero t args] : exp a = 1 for every zero a in args;
+      [exp_tbl_monotone t args]    : a <= b -> exp a <= exp b for a, b in args (IEEE comparisons);
+      [exp_tbl_nonneg t args]      : 0 <= exp a (not NaN, +inf allowed) for a in args;
+      [ln_tbl_monotone t args]     : a <= b -> ln a <= ln b for a, b in args;  [ln_tbl_zero_at_one t] : ln 1 is a zero.
+    They are statements about a finite table (satisfied by the concrete tables of the Examples and checked on the live
+    glibc by the oracle, classes "libm:..."); everything else is IEEE-754 arithmetic through Flocq's [Prim2B]. *)
+From Compute Require Proofs.C17_float Proofs.C17_float_logistic.
+Import Proofs.C17_float Proofs.C17_float_logistic.
+Local Notation finite64 v := (Flocq.IEEE754.BinarySingleNaN.is_finite (Flocq.IEEE754.PrimFloat.Prim2B v) = true).
+Local Notation real64 v := (Flocq.IEEE754.BinarySingleNaN.B2R (Flocq.IEEE754.PrimFloat.Prim2B v)).
+
+(** softmax of every non-empty vector of finite doubles: every output is a finite double in [0, 1] *)
+Theorem C17_softmax_range_binary64 :
+  forall (t : libm_table) (x : list float), x <> [] ->
+    Forall (fun v => finite64 v) x -> (Z.of_nat (length x) < 2 ^ 53)%Z ->
+    exp_tbl_unit_range t (softmax_args (FO t) x) -> exp_tbl_one_at_zero t (softmax_args (FO t) x) ->
+    Forall (fun p => finite64 p /\ 0 <= real64 p <= 1) (softmax (FO t) x).
+Proof. exact softmax_range_f64. Qed.
+
+(** order is preserved: x_i <= x_j implies out_i <= out_j (additionally: the table's exp monotone on the arguments used) *)
+Theorem C17_softmax_order_binary64 :
+  forall (t : libm_table) (x : list float), x <> [] ->
+    Forall (fun v => finite64 v) x -> (Z.of_nat (length x) < 2 ^ 53)%Z ->
+    exp_tbl_unit_range t (softmax_args (FO t) x) -> exp_tbl_one_at_zero t (softmax_args (FO t) x) ->
+    exp_tbl_monotone t (softmax_args (FO t) x) ->
+    forall i j : nat, (i < length x)%nat -> (j < length x)%nat ->
+      real64 (nth i x 0%float) <= real64 (nth j x 0%float) ->
+      real64 (nth i (softmax (FO t) x) 0%float) <= real64 (nth j (softmax (FO t) x) 0%float).
+Proof. exact softmax_order_f64. Qed.
+
+(** a maximal input receives a maximal output *)
+Theorem C17_softmax_max_binary64 :
+  forall (t : libm_table) (x : list float), x <> [] ->
+    Forall (fun v => finite64 v) x -> (Z.of_nat (length x) < 2 ^ 53)%Z ->
+    exp_tbl_unit_range t (softmax_args (FO t) x) -> exp_tbl_one_at_zero t (softmax_args (FO t) x) ->
+    exp_tbl_monotone t (softmax_args (FO t) x) ->
+    forall j : nat, (j < length x)%nat ->
+      (forall v, In v x -> real64 v <= real64 (nth j x 0%float)) ->
+      forall p, In p (softmax (FO t) x) -> real64 p <= real64 (nth j (softmax (FO t) x) 0%float).
+Proof. exact softmax_max_f64. Qed.
+
+(** the real values of the outputs sum to 1 up to rounding, at every length n < 2^52, with no side condition on
+    underflow (the term n 2^-1075 pays for quotients that fall in the subnormal range): with g = (1 + 2^-53)^n - 1 the
+    error of the left-to-right denominator, | sum_i out_i - 1 | <= (2^-53 + g) / (1 - g) + n 2^-1075 *)
+Theorem C17_softmax_sum_binary64 :
+  forall (t : libm_table) (x : list float), x <> [] ->
+    Forall (fun v => finite64 v) x ->
+    exp_tbl_unit_range t (softmax_args (FO t) x) -> exp_tbl_one_at_zero t (softmax_args (FO t) x) ->
+    (Z.of_nat (length x) < 2 ^ 52)%Z ->
+    let g := (1 + / 2 ^ 53) ^ length x - 1 in
+    Rabs (Rsum (map (fun p => real64 p) (softmax (FO t) x)) - 1)
+    <= (/ 2 ^ 53 + g) / (1 - g) + INR (length x) * / 2 ^ 1075.
+Proof. exact softmax_sum_f64. Qed.
+(** ... which for n <= 2^25 entries is at most (n + 2) 2^-53 + n 2^-1075 *)
+Theorem C17_softmax_sum_binary64_linear :
+  forall (t : libm_table) (x : list float), x <> [] ->
+    Forall (fun v => finite64 v) x ->
+    exp_tbl_unit_range t (softmax_args (FO t) x) -> exp_tbl_one_at_zero t (softmax_args (FO t) x) ->
+    (Z.of_nat (length x) <= 2 ^ 25)%Z ->
+    Rabs (Rsum (map (fun p => real64 p) (softmax (FO t) x)) - 1)
+    <= (INR (length x) + 2) * / 2 ^ 53 + INR (length x) * / 2 ^ 1075.
+Proof. exact softmax_sum_linear_f64. Qed.
+
+(** the hypotheses are satisfiable on a non-trivial instance: x = [1; 3; 2] with the three values glibc's exp returns *)
+Example C17_example_softmax_binary64 :
+  let t := {| tbl1 := [(Exp, (-2)%float, 0x1.152aaa3bf81ccp-3%float); (Exp, 0%float, 1%float);
+                       (Exp, (-1)%float, 0x1.78b56362cef38p-2%float)]; tbl2 := [] |} in
+  let x := [1%float; 3%float; 2%float] in
+  x <> [] /\ Forall (fun v => finite64 v) x /\
+  exp_tbl_unit_range t (softmax_args (FO t) x) /\ exp_tbl_one_at_zero t (softmax_args (FO t) x) /\
+  exp_tbl_monotone t (softmax_args (FO t) x) /\
+  softmax (FO t) x = [0x1.70c3e5f682bdap-4%float; 0x1.549a766a0679p-1%float; 0x1.f534335ca4bcfp-3%float].
+Proof. exact softmax_f64_hyps_ex. Qed.
+
+(** logistic = 1 / (1 + exp(-x)): for EVERY double x (NaN and the infinities included) at which the table's exp(-x) is
+    not NaN and not negative, the result is a finite double in [0, 1] *)
+Theorem C17_logistic_range_binary64 :
+  forall (t : libm_table) (x : float),
+    exp_tbl_nonneg t [PrimFloat.opp x] ->
+    finite64 (logistic (FO t) x) /\ 0 <= real64 (logistic (FO t) x) <= 1.
+Proof. exact logistic_range_f64. Qed.
+(** non-decreasing: x <= y (IEEE comparison, infinities allowed) implies logistic x <= logistic y, provided the table's
+    exp is non-negative and non-decreasing on the two arguments -x, -y *)
+Theorem C17_logistic_monotone_binary64 :
+  forall (t : libm_table) (x y : float),
+    PrimFloat.leb x y = true ->
+    exp_tbl_nonneg t [PrimFloat.opp x; PrimFloat.opp y] -> exp_tbl_monotone t [PrimFloat.opp x; PrimFloat.opp y] ->
+    real64 (logistic (FO t) x) <= real64 (logistic (FO t) y).
+Proof. exact logistic_monotone_f64. Qed.
+(** logistic(+-0) is exactly one half, given exp(-x) = 1 at the zero argument *)
+Theorem C17_logistic_at_zero_binary64 :
+  forall (t : libm_table) (x : float),
+    PrimFloat.eqb x 0%float = true -> exp_tbl_one_at_zero t [PrimFloat.opp x] ->
+    finite64 (logistic (FO t) x) /\ real64 (logistic (FO t) x) = / 2.
+Proof. exact logistic_at_zero_f64. Qed.
+Example C17_example_logistic_binary64 :
+  let t := {| tbl1 := [(Exp, (-0.5)%float, 0x1.368b2fc6f960ap-1%float); (Exp, (-2)%float, 0x1.152aaa3bf81ccp-3%float);
+                       (Exp, (-0)%float, 1%float)]; tbl2 := [] |} in
+  PrimFloat.leb 0.5 2 = true /\
+  exp_tbl_nonneg t [(- 0.5)%float; (- 2)%float] /\ exp_tbl_monotone t [(- 0.5)%float; (- 2)%float] /\
+  exp_tbl_one_at_zero t [(- 0)%float] /\ logistic (FO t) 0%float = 0.5%float.
+Proof. exact logistic_f64_hyps_ex. Qed.
+
+(** logit = ln (p / (1 - p)) on [0, 1]: logit(1/2) is the table's ln 1 (the odds 0.5 / (1 - 0.5) are exactly 1) *)
+Theorem C17_logit_half_binary64 :
+  forall t : libm_table, logit (FO t) 0.5%float = Some (f1 (FO t) Ln 1%float).
+Proof. exact logit_half_f64. Qed.
+(** the odds handed to ln are on the right side of 1 ON BINARY64, whatever libm does: a finite double in [0, 1] for
+    0 <= p <= 1/2, a double comparing >= 1 (possibly +inf) for 1/2 <= p < 1 *)
+Theorem C17_logit_odds_binary64 :
+  forall p : float, finite64 p ->
+    (0 <= real64 p <= / 2 ->
+       finite64 (PrimFloat.div p (PrimFloat.sub 1 p)) /\ 0 <= real64 (PrimFloat.div p (PrimFloat.sub 1 p)) <= 1) /\
+    (/ 2 <= real64 p < 1 -> PrimFloat.leb 1 (PrimFloat.div p (PrimFloat.sub 1 p)) = true).
+Proof. intros p Fp. split; [exact (logit_arg_le_1 p Fp)|exact (logit_arg_ge_1 p Fp)]. Qed.
+(** hence the sign of logit follows the sign of ln: with the table's ln non-decreasing on the two arguments {odds, 1} and
+    ln 1 a zero, an accepted p gives logit p <= 0 for p <= 1/2 and logit p >= 0 for 1/2 <= p < 1 *)
+Theorem C17_logit_sign_binary64 :
+  forall (t : libm_table) (p l : float),
+    logit (FO t) p = Some l ->
+    ln_tbl_monotone t [PrimFloat.div p (PrimFloat.sub 1 p); 1%float] -> ln_tbl_zero_at_one t ->
+    l = f1 (FO t) Ln (PrimFloat.div p (PrimFloat.sub 1 p)) /\
+    (real64 p <= / 2 -> PrimFloat.leb l 0%float = true) /\
+    (/ 2 <= real64 p < 1 -> PrimFloat.leb 0%float l = true).
+Proof. exact logit_sign_f64. Qed.
+Example C17_example_logit_binary64 :
+  let t := {| tbl1 := [(Ln, 0x1.5555555555555p-2%float, (-0x1.193ea7aad030bp+0)%float); (Ln, 1%float, 0%float)]; tbl2 := [] |} in
+  PrimFloat.div 0.25 (PrimFloat.sub 1 0.25) = 0x1.5555555555555p-2%float /\
+  logit (FO t) 0.25%float = Some (-0x1.193ea7aad030bp+0)%float /\
+  ln_tbl_monotone t [PrimFloat.div 0.25 (PrimFloat.sub 1 0.25); 1%float] /\ ln_tbl_zero_at_one t /\
+  logit (FO t) 0.5%float = Some 0%float.
+Proof. exact logit_f64_hyps_ex. Qed.
+
+(** Box-Cox on binary64 (repaired code: ln y * (exp_m1(u) / u) with u = lambda * ln y, and ln y when lambda == 0 || u == 0):
+    the dispatch on lambda is exact (lambda = +0 or -0 returns the table's ln of the (shifted) argument, whatever libm
+    does), and the transform of 1 is the table's ln 1 for every finite lambda, a zero as soon as ln 1 is *)
+Theorem C17_boxcox_lambda_zero_binary64 :
+  forall (t : libm_table) (x l : float),
+    PrimFloat.ltb 0%float x = true -> PrimFloat.eqb l 0%float = true -> boxcox (FO t) x l = Some (f1 (FO t) Ln x).
+Proof. exact boxcox_lambda_zero_f64. Qed.
+Theorem C17_boxcox_shifted_lambda_zero_binary64 :
+  forall (t : libm_table) (x l a : float),
+    PrimFloat.ltb 0%float (PrimFloat.add x a) = true -> PrimFloat.eqb l 0%float = true ->
+    boxcox_shifted (FO t) x l a = Some (f1 (FO t) Ln (PrimFloat.add x a)).
+Proof. exact boxcox_shifted_lambda_zero_f64. Qed.
+Theorem C17_boxcox_at_one_binary64 :
+  forall (t : libm_table) (l : float),
+    finite64 l -> ln_tbl_zero_at_one t ->
+    boxcox (FO t) 1%float l = Some (f1 (FO t) Ln 1%float) /\ PrimFloat.eqb (f1 (FO t) Ln 1%float) 0%float = true.
+Proof. exact boxcox_at_one_f64. Qed.
+Example C17_example_boxcox_binary64 :
+  let t := {| tbl1 := [(Ln, 1%float, 0%float)]; tbl2 := [] |} in
+  finite64 2.5%float /\ ln_tbl_zero_at_one t /\ boxcox (FO t) 1%float 2.5%float = Some 0%float.
+Proof. exact boxcox_f64_hyps_ex. Qed.
+
+(** ** softmax on binary64, continued: the value of the maximal output, and the decidable form of the hypotheses *)
+From Compute Require Proofs.C17_float_refl.
+Import Proofs.C17_float_refl.
+(** the output at a maximal input is the correctly rounded reciprocal of the binary64 denominator (its exponential is exactly
+    1), hence at least the rounded 1/n and in particular positive: the outputs are never all zero *)
+Theorem C17_softmax_max_value_binary64 :
+  forall (t : libm_table) (x : list float), x <> [] ->
+    Forall (fun v => finite64 v) x -> (Z.of_nat (length x) < 2 ^ 53)%Z ->
+    exp_tbl_unit_range t (softmax_args (FO t) x) -> exp_tbl_one_at_zero t (softmax_args (FO t) x) ->
+    forall j : nat, (j < length x)%nat ->
+      (forall v, In v x -> real64 v <= real64 (nth j x 0%float)) ->
+      real64 (nth j (softmax (FO t) x) 0%float)
+        = Generic_fmt.round Zaux.radix2 (SpecFloat.fexp FloatOps.prec FloatOps.emax) (Flocq.IEEE754.BinarySingleNaN.round_mode Flocq.IEEE754.BinarySingleNaN.mode_NE)
+            (1 / real64 (softmax_denom (FO t) x)) /\
+      Generic_fmt.round Zaux.radix2 (SpecFloat.fexp FloatOps.prec FloatOps.emax) (Flocq.IEEE754.BinarySingleNaN.round_mode Flocq.IEEE754.BinarySingleNaN.mode_NE)
+            (1 / IZR (Z.of_nat (length x))) <= real64 (nth j (softmax (FO t) x) 0%float) /\
+      0 < real64 (nth j (softmax (FO t) x) 0%float).
+Proof. exact softmax_max_value_f64. Qed.
+(** the three exp hypotheses are DECIDABLE on a concrete table: [softmax_tbl_ok t x] is a boolean computed from the recorded
+    table and the input (comparisons of table entries over the arguments x_i - max), and it implies them ... *)
+Theorem C17_softmax_tbl_ok_sound :
+  forall (t : libm_table) (x : list float), softmax_tbl_ok t x = true ->
+    exp_tbl_unit_range t (softmax_args (FO t) x) /\ exp_tbl_one_at_zero t (softmax_args (FO t) x) /\
+    exp_tbl_monotone t (softmax_args (FO t) x).
+Proof. exact softmax_tbl_ok_sound. Qed.
+(** ... so that range, order and sum hold for every recorded run on which two booleans evaluate to [true] *)
+Theorem C17_softmax_binary64_decidable :
+  forall (t : libm_table) (x : list float),
+    x <> [] -> all_finite_b x = true -> (Z.of_nat (length x) <= 2 ^ 25)%Z -> softmax_tbl_ok t x = true ->
+    Forall (fun p => finite64 p /\ 0 <= real64 p <= 1) (softmax (FO t) x) /\
+    (forall i j : nat, (i < length x)%nat -> (j < length x)%nat ->
+       real64 (nth i x 0%float) <= real64 (nth j x 0%float) ->
+       real64 (nth i (softmax (FO t) x) 0%float) <= real64 (nth j (softmax (FO t) x) 0%float)) /\
+    Rabs (Rsum (map (fun p => real64 p) (softmax (FO t) x)) - 1)
+    <= (INR (length x) + 2) * / 2 ^ 53 + INR (length x) * / 2 ^ 1075.
+Proof. exact softmax_f64_decidable. Qed.
+Example C17_example_softmax_binary64_decidable :
+  let t := {| tbl1 := [(Exp, (-2)%float, 0x1.152aaa3bf81ccp-3%float); (Exp, 0%float, 1%float);
+                       (Exp, (-1)%float, 0x1.78b56362cef38p-2%float)]; tbl2 := [] |} in
+  softmax_tbl_ok t [1%float; 3%float; 2%float] = true /\ all_finite_b [1%float; 3%float; 2%float] = true.
+Proof. exact softmax_f64_decidable_ex. Qed.
